@@ -174,9 +174,26 @@ def structHandler10 : Handler
     some (corr.and (((judge "C06" regionDdl r06ddl).and (judge "C06" (Scope.c06 g d) r06)).and (judge "C10" (Scope.c06 g d) r10)))
   | _ => none
 
+/-- C03 on the struct route: the same models loaded twice, and the models against sqlize's own dump of them, diff to
+    nothing (structs with a pending `previous` rename marker are excluded by the property) -/
+def structC03 (g : Globals) (d : Decl) : SExp → Verdict
+  | .list [.atom "c03", .atom su, .atom sd, .atom du, .atom dd] =>
+    let region := (Scope.c06 g d).orElse fun _ =>
+      if Scope.anyTags (fun t => (t.splitOn ",previous:").length > 1) d.fields then some "excluded:pending-previous-rename" else none
+    let r : Check := do
+      check (su == "" && sd == "") s!"the same models loaded twice give a non-empty migration: up={SExp.quote su} down={SExp.quote sd}"
+      check (du == "" && dd == "") s!"models against sqlize's own dump of them give a non-empty migration: up={SExp.quote du} down={SExp.quote dd}"
+    judge "C03" region r
+  | _ => okV
+
 def structHandler : Handler
   | [cfg, bcfg, decl, expect, ddl, ddlFlip, load, dump, hash] =>
     structHandler10 [cfg, bcfg, decl, expect, ddl, ddlFlip, load, dump, hash, .list []]
+  | [cfg, bcfg, decl, expect, ddl, ddlFlip, load, dump, hash, extra, c03] => do
+    let v ← structHandler10 [cfg, bcfg, decl, expect, ddl, ddlFlip, load, dump, hash, extra]
+    let g ← decodeCfg cfg
+    let d ← decodeDecl decl
+    some (v.and (structC03 g d c03))
   | args => structHandler10 args
 
 end Sqlize.Driver
